@@ -11,6 +11,11 @@ CLAIMED = {
          "Every reachable session state over a 32-statement alphabet (bind, rebind, shadow, nested assignment, output, calls, failing and reserved-name statements) is enumerated to the BFS fixpoint; every transition runs one statement through get_pairs/evaluate_pairs and is checked against the immutability/scoping invariants and a reference model of the alphabet. Right level because the property is an invariant over all statement histories.",
          "Trusts the harness's canonical state key (sorted bindings + outputs) and the 32-statement reference model; names/values outside the alphabet are not explored.",
          "DESIGN.md §4 C03"),
+ "C10": ("exploration",
+         "exhaustive enumeration of operator sequences, prefix/postfix combinations, layout-site choices and identifier shapes against a reference precedence-climbing parser",
+         "All 676 operator pairs, 17576 triples, 6561 quadruples over level representatives and every prefix x postfix x operator combination are parsed in minimal and fully parenthesised form and compared with a precedence-climbing reference built from the property's table; every layout option at every grammar layout site (singly, pairwise, all at once) over every node kind / parent-child spine must leave the AST unchanged; every reserved word x every one-character prefix/suffix (plus compounds) is bound and referenced in 34 expression contexts.",
+         "Trusts the 20-line reference climber and the harness's list of layout sites/options (read off grammar.pest); deeper operator chains than 5 operands are covered only through representatives.",
+         "DESIGN.md §4 C10"),
  "C11": ("exploration",
          "bounded-exhaustive enumeration of operator x shape x element-pool products against an independent scalar model",
          "All 17 broadcasting operators x {scalar-scalar, list-scalar, scalar-list, list-list, mismatched lengths} over a boundary element pool are enumerated completely and compared element by element with an independent model of the scalar operators; dot operators checked never to broadcast.",
